@@ -14,7 +14,20 @@ import shutil
 import subprocess
 
 REPO_V = r"""
-Definition failing := Eval vm_compute in filter (fun f => negb (balanced prog f)) (map fst prog).
+Definition failing_all := Eval vm_compute in filter (fun f => negb (balanced prog f)) (map fst prog).
+
+(* declared atomic sections that do not hold, and among their functions those that pass
+   once their sections are left out (balance, floor and panic paths are fine: only the section is broken) *)
+Definition strip (p : program) : program :=
+  map (fun fe => (fst fe, (fst (snd fe), let sm := snd (snd fe) in
+                           mkSum (s_delta sm) (s_dirty sm) (s_pre sm) (s_plow sm) (s_panics sm) []))) p.
+Definition atomic_failing := Eval vm_compute in
+  map fst (filter (fun fe => negb (atomic_section prog (fst fe) (snd fe))) atomic_table).
+Print atomic_failing.
+Definition atomic_only := Eval vm_compute in filter (fun f => balanced (strip prog) f) atomic_failing.
+Print atomic_only.
+Definition failing := Eval vm_compute in
+  filter (fun f => negb (existsb (String.eqb f) atomic_only)) failing_all.
 Print failing.
 
 (* a function without a declared summary: no net effect, no entry assumption
@@ -66,6 +79,21 @@ Theorem repo_panic_paths_release_covered :
   forall i, covered prog ds i = true -> in_piles (s_dirty sm) i = false -> cnt h i = cnt (s_delta sm) i.
 Proof. exact (balanced_panic_covered prog repo_balanced). Qed.
 Print Assumptions repo_panic_paths_release_covered.
+
+(* Every declared atomic section holds (check-then-act under one hold of the mutex). *)
+Theorem repo_atomic_sections :
+  forallb (fun fe => atomic_section prog (fst fe) (snd fe)) atomic_table = true.
+Proof. vm_compute. reflexivity. Qed.
+
+Theorem repo_atomic_sections_hold : forall f e, In (f, e) atomic_table ->
+  exists body sm, assoc f prog = Some (body, sm) /\ In e (s_atomic sm) /\
+    forall o fr, exec prog (ctx_of sm) body frame0 o fr -> o <> OFault.
+Proof.
+  intros f e Hin.
+  exact (atomic_section_sound prog repo_balanced f e
+           (proj1 (forallb_forall _ _) repo_atomic_sections (f, e) Hin)).
+Qed.
+Print Assumptions repo_atomic_sections_hold.
 
 (* Lock classes outside LockPile are acquired in an acyclic order. *)
 Theorem repo_lock_order_acyclic : acyclic lock_edges = true.
@@ -134,15 +162,28 @@ def static_locks(tier, seed, build, repo, verif):
     open(os.path.join(gen, "RepoBalanced.v"), "w").write(src + REPO_V)
     rc, out = _sh(["timeout", "900", "coqc", "-Q", os.path.join(verif, "coq", "theories"), "VF", "RepoBalanced.v"], cwd=gen, timeout=960)
     flat = " ".join(out.split())
-    m = re.search(r"failing = (\[.*?\]) : list string", flat)
+    m = re.search(r"(?<![\w])failing = (\[.*?\]) : list string", flat)
     failing = re.findall(r'"([^"]+)"', m.group(1)) if m else None
     m2 = re.search(r"unknown_entry_points = (\[.*?\]) : list string", flat)
     unknown = re.findall(r'"([^"]+)"', m2.group(1)) if m2 else None
+    ma = re.search(r"atomic_failing = (\[.*?\]) : list string", flat)
+    atomic_failing = re.findall(r'"([^"]+)"', ma.group(1)) if ma else None
     m3 = re.search(r"order_residue = (\[.*?\]) : (?:graph|list \(string \* string\))", flat)
     residue = re.findall(r'\("([^"]+)", "([^"]+)"\)', m3.group(1)) if m3 else None
     if failing is None or (unknown is None and not failing):
         yield ("repo_balanced", False, "could not evaluate the checker on the generated skeleton:\n" + out[-1500:], None)
         return
+    atomic_note = None
+    if atomic_failing:
+        sections = json.load(open(os.path.join(verif, "translator", "summaries.json")))["atomic"]["sections"]
+        desc = []
+        for f in sorted(set(atomic_failing)):
+            for sc in sections.get(f, []):
+                desc.append("%s: %s%s under %s held %s" % (f, sc["a"], (" -> " + sc["b"]) if sc.get("b") else "", sc["lock"],
+                                                          "exclusively" if sc["mode"] == "exclusive" else "at least shared"))
+        atomic_note = ("Theorem repo_atomic_sections does not hold for the current sources: on some path of these functions the declared section is "
+                       "broken (the mutex is not held, or not in the declared mode, at the opening/closing event, or it is released -- or a function "
+                       "whose summary mentions it is called -- between them): " + "; ".join(desc))
     if failing or unknown:
         # tell the harness where to look (it biases its generator towards these methods)
         focus = sorted(set(f.split(".")[-1].split("$")[0] for f in failing))
@@ -153,6 +194,11 @@ def static_locks(tier, seed, build, repo, verif):
         if unknown:
             note += "; entry points missing from the skeleton: " + ", ".join(unknown)
         yield ("repo_balanced", False, note, {"failing_functions": failing, "skeleton": os.path.join(gen, "Skeleton.v")})
+        if atomic_note:
+            yield ("repo_atomic_sections", False, atomic_note, {"failing_functions": atomic_failing, "skeleton": os.path.join(gen, "Skeleton.v")})
+        return
+    if atomic_note:
+        yield ("repo_atomic_sections", False, atomic_note, {"failing_functions": atomic_failing, "skeleton": os.path.join(gen, "Skeleton.v")})
         return
     if order_msgs:
         residue = []  # reported above; the graph is incomplete, nothing to say about cycles
@@ -181,7 +227,7 @@ def static_locks(tier, seed, build, repo, verif):
                "(call paths acquire mutexes of these classes in opposite orders). Edges on the cycle(s), each with up to two acquisition sites:\n  " + "\n  ".join(lines),
                {"cycle_edges": [list(e) for e in residue], "sites": sites, "graph": os.path.join(gen, "order.json")})
         return
-    if rc or out.count("Closed under the global context") < 4:
+    if rc or out.count("Closed under the global context") < 5:
         yield ("repo_balanced", False, "RepoBalanced.v failed:\n" + out[-1500:], None)
         return
     yield ("repo_balanced", True, "forallb (balanced prog) (map fst prog) = true by vm_compute over %d functions" % stats["functions_emitted"], None)
@@ -190,6 +236,10 @@ def static_locks(tier, seed, build, repo, verif):
     yield ("repo_never_underflows", True,
            "corollary of balanced_no_fault: no function releases a mutex it does not hold (relative to its declared entry assumption), "
            "on returning and panicking paths; Closed under the global context", None)
+    yield ("repo_atomic_sections", True,
+           "forallb atomic_section over the %d declared sections of %d functions (summaries.json atomic/sections; every other call site of the watched "
+           "methods stops the translator) by vm_compute; repo_atomic_sections_hold through atomic_section_sound, Closed under the global context" % (
+               stats["atomic_sections"], stats["functions_with_atomic_sections"]), None)
     yield ("repo_panic_paths_release_covered", True,
            "corollary of balanced_panic_covered: on a function's own panic the locks its pending defers cover are released exactly", None)
     if order_msgs:
@@ -200,12 +250,20 @@ def static_locks(tier, seed, build, repo, verif):
                stats["lock_classes"], stats["lock_order_edges"], stats["justified_nestings"]), None)
 
 
+def static_atomic(tier, seed, build, repo, verif):
+    """For C20 (exclusion of byte-range locks): the generated obligation repo_atomic_sections alone
+    (and whatever keeps it from being evaluated)."""
+    for (name, ok, note, payload) in static_locks(tier, seed, build, repo, verif):
+        if name == "repo_atomic_sections" or (not ok and name in ("translator-build", "lock-skeleton-extracted")):
+            yield (name, ok, note, payload)
+
+
 CONFIG = {
     "id": "C14",
     "coq_dirs": ["theories/Locks"],
     "coq_targets": ["theories/Locks/Properties.vo", "theories/Locks/Corr.vo", "theories/Dir/Corr.vo", "theories/Dir/Front.vo"],
     "properties_files": ["theories/Locks/Properties.v"],
-    "required_theorems": ["balanced_sound", "balanced_sound_all", "balanced_no_fault", "balanced_panic_covered", "acyclic_sound",
+    "required_theorems": ["balanced_sound", "balanced_sound_all", "balanced_no_fault", "balanced_panic_covered", "atomic_section_sound", "acyclic_sound",
                           "order_no_deadlock", "pile_holds_exactly", "pile_blocks_bare", "no_deadlock", "pile_runner_satisfies_monitor"],
     "static_obligations": [static_locks],
     "harnesses": [
